@@ -314,7 +314,7 @@ func c05Diff(ref, got *Outcome) (string, string) {
 func init() {
 	register(&Check{
 		ID: "C05", Level: "exploration", Run: c05Run,
-		Runs:       [2]int{16000, 400000},
+		Runs:       [2]int{16000, 800000},
 		MaxSeconds: [2]int{90, 1500},
 		Rule: "one run = one generated configuration (1-7 rules with ctl:*, skip/skipAfter/allow, chains, captures, exclusions, audit engine/parts/format, body limits small enough to spill) and a history of 1-3 predecessor transactions " +
 			"(each may be interrupted in any phase, spill its body, upload files, stop after any API call, omit ProcessLogging, Close twice, hold a body reader across Close; 1/4 of runs inject one disk fault into the last predecessor) followed by a probe transaction on the pooled object (LIFO pool). " +
